@@ -719,10 +719,10 @@ func checkWriterReader(r *Run) {
 	r.Rule("C12.S4", "type tags: the constants passed to serde.Register are pairwise distinct")
 	p := r.Prog
 	type rw struct {
-		m, u     *FuncDecl
-		mT, uT   map[string]bool
-		mTag     string
-		mPos     token.Pos
+		m, u   *FuncDecl
+		mT, uT map[string]bool
+		mTag   string
+		mPos   token.Pos
 	}
 	byType := map[string]*rw{}
 	get := func(fd *FuncDecl) *rw {
